@@ -320,28 +320,35 @@ func (n *NFA) Concat(ns ...*NFA) *NFA {
 	sm := newStateManager(0)
 
 	for id, nfa := range nfas {
+		// The start state of the current NFA is merged into the previous NFA final states.
+		// If a transition of the current NFA leads back to its start state, the start state also needs a state of its own,
+		// since the previous NFA final states can have transitions that do not belong to the current NFA.
+		var start []State
+		for _, strans := range nfa.trans.All() {
+			for _, states := range strans.All() {
+				if states.Contains(nfa.Start) {
+					start = []State{sm.GetOrCreateState(id, nfa.Start)}
+				}
+			}
+		}
+
 		for s, strans := range nfa.trans.All() {
 			// If s is the start state of the current NFA,
-			// we need to map it to the previous NFA final states.
+			// we need to map it to the previous NFA final states (and to its own state, if any).
 			var sp []State
 			if s == nfa.Start {
-				sp = final
+				sp = append(append([]State{}, final...), start...)
 			} else {
 				ss := sm.GetOrCreateState(id, s)
 				sp = []State{ss}
 			}
 
 			for a, states := range strans.All() {
-				// If any of the next state is the start state of the current NFA,
-				// we need to map it to the previous NFA final states.
+				// The start state of the current NFA, if it is a next state, has a state of its own.
 				var nextp []State
 				for t := range states.All() {
-					if t == nfa.Start {
-						nextp = append(nextp, final...)
-					} else {
-						tt := sm.GetOrCreateState(id, t)
-						nextp = append(nextp, tt)
-					}
+					tt := sm.GetOrCreateState(id, t)
+					nextp = append(nextp, tt)
 				}
 
 				// Add new transitions
@@ -352,10 +359,17 @@ func (n *NFA) Concat(ns ...*NFA) *NFA {
 		}
 
 		// Update the current final states
+		prev := final
 		final = make([]State, 0, nfa.Final.Size())
 		for f := range nfa.Final.All() {
-			ff := sm.GetOrCreateState(id, f)
-			final = append(final, ff)
+			if f == nfa.Start {
+				// The start state is merged into the previous NFA final states.
+				final = append(final, prev...)
+				final = append(final, start...)
+			} else {
+				ff := sm.GetOrCreateState(id, f)
+				final = append(final, ff)
+			}
 		}
 	}
 
